@@ -176,13 +176,15 @@ def opBound (op : Nat) : Bool :=
   decide (weight op + (if op = Opcodes.opGoto then 4 else 0) ≤
     (if backtracks op then 4 else 0) + (if op = Opcodes.opNullmark then 1 else 0))
 
-theorem opBound_table : ∀ op, op < Opcodes.numOpcodes → opBound op = true := by decide
+/-- the table fact itself is discharged in Props/C13 (`op_bound_table`, by `decide` over the regenerated
+    tables) so that a change of the Go source shows up as a broken property obligation -/
+def OpBoundTable : Prop := ∀ op, op < Opcodes.numOpcodes → opBound op = true
 
-theorem opBound_all (op : Nat) :
+theorem opBound_all (hT : OpBoundTable) (op : Nat) :
     weight op + (if op = Opcodes.opGoto then 4 else 0) ≤
     (if backtracks op then 4 else 0) + (if op = Opcodes.opNullmark then 1 else 0) := by
   by_cases h : op < Opcodes.numOpcodes
-  · have := opBound_table op h
+  · have := hT op h
     unfold opBound at this
     exact of_decide_eq_true this
   · have h' : Opcodes.numOpcodes ≤ op := Nat.le_of_not_lt h
@@ -192,12 +194,12 @@ theorem opBound_all (op : Nat) :
       omega
     simp [h1]
 
-theorem weights_sum_bound (prog : List Nat) :
+theorem weights_sum_bound (hT : OpBoundTable) (prog : List Nat) :
     (weights prog).sum + 4 * count Opcodes.opGoto prog ≤ 4 * trackCount prog + count Opcodes.opNullmark prog := by
   induction prog with
   | nil => simp [weights, count, trackCount]
   | cons op rest ih =>
-    have hb := opBound_all op
+    have hb := opBound_all hT op
     have e1 : (if backtracks op = true then 4 else 0) = 4 * (if backtracks op = true then 1 else 0) := by
       split <;> rfl
     have e2 : (if op = Opcodes.opGoto then 4 else 0) = 4 * (if op = Opcodes.opGoto then 1 else 0) := by
